@@ -156,8 +156,8 @@ def run(ctx):
             return ('present', True)
         if re.match(r'^self\.db\[\w+\] is None$', t):
             return ('present', False)
-        if re.match(r'^self\.db\[\w+\]\[-1\]\.alive$', t):
-            return ('alive', True)
+        if re.match(r'^self\.db\[\w+\]\[-1\]\.alive$', t) or re.match(r'^self\.db\[\w+\]\[-1\]\.destroy_time is None$', t):
+            return ('alive', True)      # the second form: alive as a derived property, whose definition C03.1 pins to exactly this test
         if re.match(r'^self\.db\[\w+\]\[-1\]\.owned_by_server\(\)$', t):
             return ('server', True)
         if t == "'wl_registry' == type_name":
@@ -277,7 +277,7 @@ def run(ctx):
     nct = 0
     for p in cpaths:
         for e in p.events:
-            if e.kind == 'call' and norm(e.node.func).split('.')[-1] == 'ResolvedObject':
+            if e.kind == 'call' and isinstance(e.node, ast.Call) and norm(e.node.func).split('.')[-1] == 'ResolvedObject':
                 nct += 1
                 ctx.check(norm(arg_by_name(e, ro_init, 'create_time')) == 'time', 'C03.6', 'create_object:create_time', f_create.loc(e.node),
                           'the new object is stamped with the creating message\'s time')
